@@ -29,6 +29,7 @@ type Ctx struct {
 	Tier  string
 	Seed  int64
 	Root  string
+	Out   string // where evidence/ and replays/ are written (Root, unless VERIF_OUT redirects a scratch run)
 	Level string
 	start time.Time
 
@@ -93,7 +94,11 @@ func (c *Ctx) Mine() bool {
 
 func New(id, tier, root string) *Ctx {
 	seed, _ := strconv.ParseInt(os.Getenv("VERIF_SEED"), 10, 64)
-	c := &Ctx{ID: id, Tier: tier, Seed: seed, Root: root, Level: "model_checking", start: time.Now(),
+	out := root
+	if o := os.Getenv("VERIF_OUT"); o != "" {
+		out = o
+	}
+	c := &Ctx{ID: id, Tier: tier, Seed: seed, Root: root, Out: out, Level: "model_checking", start: time.Now(),
 		distinct: map[uint64]struct{}{}, maxSamples: 6, Exhaustive: true, Extra: map[string]interface{}{},
 		knownHit: map[string]string{}, viol: map[string]string{}, MaxViol: 8}
 	b, err := os.ReadFile(filepath.Join(root, "known_findings.json"))
@@ -225,7 +230,7 @@ func (c *Ctx) Report(class, what, detail string, replay interface{}) bool {
 	}
 	js, _ := json.MarshalIndent(map[string]interface{}{"property": c.ID, "class": class, "what": what, "detail": detail, "case": replay}, "", " ")
 	h := sha1.Sum(js)
-	dir := filepath.Join(c.Root, "replays")
+	dir := filepath.Join(c.Out, "replays")
 	os.MkdirAll(dir, 0o755)
 	p := filepath.Join(dir, c.ID+"-"+hex.EncodeToString(h[:6])+".json")
 	os.WriteFile(p, js, 0o644)
@@ -302,8 +307,8 @@ func (c *Ctx) Finish() {
 	if err != nil {
 		Infra("evidence: %v", err)
 	}
-	os.MkdirAll(filepath.Join(c.Root, "evidence"), 0o755)
-	if err := os.WriteFile(filepath.Join(c.Root, "evidence", c.ID+".json"), js, 0o644); err != nil {
+	os.MkdirAll(filepath.Join(c.Out, "evidence"), 0o755)
+	if err := os.WriteFile(filepath.Join(c.Out, "evidence", c.ID+".json"), js, 0o644); err != nil {
 		Infra("evidence: %v", err)
 	}
 	fmt.Printf("%s tier=%s evaluations=%d distinct=%d states=%d transitions=%d exhaustive=%v known=%d violations=%d wall=%.1fs\n",
